@@ -47,6 +47,30 @@ def perturb(src, seed, mode):
     return s
 
 
+class TextProg:
+    """a program given as text with a hole for the spelling of a type"""
+    def __init__(self, pid, tpl, words, names): self.pid, self.tpl, self.words, self.names = pid, tpl, words, names
+    def text(self, sep): return self.tpl.replace('{T}', sep.join(self.words))
+    def c(self): return self.text(' ')
+    def gnames(self): return self.names
+
+
+def type_spellings():
+    """multi-word type names (the grammar handles the blanks inside them itself, in atomic rules) in every declaration position"""
+    forms = [['short', 'int'], ['unsigned', 'short'], ['unsigned', 'short', 'int'], ['signed', 'short', 'int'], ['unsigned', 'int'], ['signed', 'int'], ['unsigned', 'char'], ['signed', 'char'], ['signed', 'short']]
+    tpls = [('global', '{T} g1; {T} g2;\nvoid main() { g1 = g2 + 1; }\n', ['g1', 'g2']), ('array', '{T} ga[3]; {T} g1;\nvoid main() { ga[1] = g1; g1 = ga[X]; }\n', ['ga', 'g1']),
+            ('local', '{T} g1;\nvoid main() { {T} l = g1; l++; g1 = l; }\n', ['g1']), ('param', '{T} g1;\nvoid f({T} p) { g1 = p; }\nvoid main() { f(g1 + 1); }\n', ['g1']),
+            ('return', '{T} g1;\n{T} f() { return g1 + 1; }\nvoid main() { g1 = f(); }\n', ['g1']), ('two-params', 'unsigned char r;\nvoid f({T} p, {T} q) { r = p + q; }\nvoid main() { f(1, 2); }\n', ['r']),
+            ('const', 'const {T} k = 3; {T} g1;\nvoid main() { g1 = k; }\n', ['g1']), ('sizeof', 'unsigned char r;\nvoid main() { r = sizeof({T}); }\n', ['r']),
+            ('pointer', '{T} g1; {T} *gp;\nvoid main() { g1 = 1; }\n', ['g1']), ('inline-fn', '{T} g1;\ninline {T} f({T} p) { return p + 1; }\nvoid main() { g1 = f(g1); }\n', ['g1'])]
+    for words in forms:
+        for tn, tpl, names in tpls:
+            yield TextProg('types/%s/%s' % ('-'.join(words), tn), tpl, words, names)
+
+
+TYPE_SEPS = [('two-blanks', '  '), ('tab', '\t'), ('blank-tab', ' \t'), ('newline', '\n'), ('crlf-indent', '\r\n    '), ('comment', ' /* c */ '), ('comment-glued', '/* c */'), ('splice', ' \\\n '), ('many', '   \t  \n  ')]
+
+
 def run(tier):
     rep = common.Report('C11', tier, 'translation_validation')
     common.build_driver()
@@ -65,6 +89,10 @@ def run(tier):
     for lvl in (['-O1'], ['-O0']):
         stats, smp, results = runner.relational(rep, progs, variants, 'plain', args_base=lvl, reject_is_violation=True)
         allstats[lvl[0]] = dict(stats); samples += smp[:2]
+    # the spelling of multi-word type names
+    tv = lambda p: [('plain', [], None)] + [('typesep:' + n, [], (lambda p, s=s: p.text(s))) for n, s in TYPE_SEPS]
+    stats, smp, results = runner.relational(rep, list(type_spellings()), tv, 'plain', args_base=['-O1'], reject_is_violation=True)
+    allstats['type-spellings/-O1'] = dict(stats)
     # listing/warning options on the complete peephole family (comment lines sit between the instructions the optimiser pairs up)
     big = list(families.g_peep(tier)) + list(families.g_peep_random(4242, 3000 if tier == 'quick' else 12000, depth=4))
     optv = [('plain', [], None), ('insert_code', ['--insert-code'], None), ('insert_code+Wall', ['--insert-code', '-W', 'all'], None)]
@@ -79,7 +107,7 @@ def run(tier):
     rep.cov = dict(programs=tot('accepted'), disagreements_checked=tot('disagreements_checked'), samples=samples, variant_pairs=tot('variants'),
                    identical_by_text=tot('identical_by_text'), decided_by_solver=tot('decided'), variant_rejected=tot('variant_err'), variant_crash=tot('variant_crash'),
                    unsupported=tot('unsupported'), queries=tot('queries'), solver_s=round(tot('solver_s'), 1),
-                   bounds=dict(options=['--insert-code', '-W all'], layout_modes=['block comments', 'block comments glued between tokens', '// comments', 'blank lines', 'splices', 'tabs', 'CR-LF', 'whole program on one line (with/without final newline)', 'mixed'],
+                   bounds=dict(options=['--insert-code', '-W all'], layout_modes=['block comments', 'block comments glued between tokens', '// comments', 'blank lines', 'splices', 'tabs', 'CR-LF', 'whole program on one line (with/without final newline)', 'mixed', 'separators inside multi-word type names in every declaration position'],
                                placements='between any two tokens of the generated source, pseudo-random per program (seeded)'), stats=allstats)
     rep.assumptions = ['as C02', 'layout noise is inserted only at token boundaries of my own printer output; pest WHITESPACE/COMMENT rules themselves are exercised, not encoded']
     return rep.finish()
